@@ -16,7 +16,7 @@ from typing import Any
 from hypothesis import strategies as st
 
 import frequenz.sdk.microgrid  # noqa: F401  (must be imported before the formula generators: import cycle)
-from frequenz.channels import Broadcast
+from frequenz.channels import Broadcast, Receiver, ReceiverError
 from frequenz.client.microgrid import Connection
 from frequenz.quantities import Quantity
 from frequenz.sdk._internal._channels import ChannelRegistry
@@ -40,14 +40,16 @@ RULE = {
         "grid -> meter -> 1-2 dedicated meters (primary of a term) -> 1-2 PV inverters / battery inverters with a battery "
         "each (fallbacks); per tick every primary and every inverter is valid or missing; the "
         "fallback samples of a tick are delivered before or after the primary sample or up to 2 ticks late; optionally one "
-        "primary stream is closed at a tick. The harness serves every ComponentMetricRequest (also those of the lazily started "
+        "primary stream is closed at a tick, and in a third of the cases 1-2 (term, tick) pairs are drawn at which the primary's "
+        "receive() raises a ReceiverError that is not a stop instead of delivering that tick's sample (the registry hands the "
+        "formula receivers wrapped by the harness; the stream continues afterwards). The harness serves every ComponentMetricRequest (also those of the lazily started "
         "fallback formulas) from the tick after it is made. Primary of term j carries (k+1)*10^(5j), inverter i carries that "
         "*10*(i+1), so the source and the tick of every output are identifiable. Oracle per output timestamp t: each term is "
-        "its primary if valid, else the sum of its valid fallback inverters if the fallback was started before t and one is "
+        "its primary if valid (delivered, not closed, not raising at t), else the sum of its valid fallback inverters if the fallback was started before t and one is "
         "valid, else unconstrained; the tick at which a term's fallback is started (first invalid primary; for a closed stream "
         "that tick and the next) may be None or absent; outside those ticks every timestamp has exactly one output. "
         "Non-trivial = a primary fails, recovers and fails again with its fallback valid, or fallback delivery lags, or a "
-        "primary closes; distinct by SHA-1 of the canonical JSON case."
+        "primary closes or raises; distinct by SHA-1 of the canonical JSON case."
     )
 }
 ASSUMPTIONS = [
@@ -55,7 +57,49 @@ ASSUMPTIONS = [
     "primary samples are delivered on time (only fallback delivery lags)",
     "when neither source of a term is valid at a tick nothing is demanded of that tick's value",
 ]
-MIN_LABELS = {"C19": {"fail_recover_fail": 0.1, "fallback_lag": 0.3, "primary_closed": 0.1, "two_terms": 0.3, "family_battery": 0.1}}
+MIN_LABELS = {"C19": {"fail_recover_fail": 0.1, "fallback_lag": 0.3, "primary_closed": 0.1, "two_terms": 0.3, "family_battery": 0.1,
+                      "primary_transient_error": 0.15, "transient_error_while_fallback_running_then_primary_continues": 0.03}}
+
+
+class _TransientError:
+    """Marker the harness sends on a primary channel: the receiver raises a non-stop ReceiverError for it."""
+
+
+_TRANSIENT = _TransientError()
+
+
+class _FlakyReceiver(Receiver[Any]):
+    """Forwards the wrapped receiver; raises a (transient) ReceiverError instead of delivering the marker."""
+
+    def __init__(self, inner: Receiver[Any]) -> None:
+        self._inner = inner
+
+    async def ready(self) -> bool:
+        return await self._inner.ready()
+
+    def consume(self) -> Any:
+        msg = self._inner.consume()
+        if msg is _TRANSIENT:
+            raise ReceiverError("transient receive failure injected by the harness", self)
+        return msg
+
+
+class _FlakyChannel:
+    def __init__(self, chan: Any) -> None:
+        self._chan = chan
+
+    def new_receiver(self, **kwargs: Any) -> Any:
+        return _FlakyReceiver(self._chan.new_receiver(**kwargs))
+
+    def __getattr__(self, name: str) -> Any:
+        return getattr(self._chan, name)
+
+
+class _FlakyRegistry(ChannelRegistry):
+    """A ChannelRegistry whose channels hand out receivers that can be made to raise once."""
+
+    def get_or_create(self, message_type: Any, key: str) -> Any:
+        return _FlakyChannel(super().get_or_create(message_type, key))
 
 
 @st.composite
@@ -71,7 +115,13 @@ def _case(draw: Any, max_ticks: int) -> dict[str, Any]:
     close = None
     if draw(st.integers(0, 3)) == 0:
         close = [draw(st.integers(0, nterms - 1)), draw(st.integers(1, nticks - 1))]
+    errors = []
+    if draw(st.integers(0, 2)) == 0:
+        # the primary's receive() raises a ReceiverError that is not a stop, once, instead of delivering the tick's sample
+        errors = draw(st.lists(st.tuples(st.integers(0, nterms - 1), st.integers(0, nticks - 1)).map(list),
+                               min_size=1, max_size=2, unique_by=tuple))
     return {
+        "errors": errors,
         "family": draw(st.sampled_from(["pv", "pv", "battery"])),
         "ninv": ninv,
         "script": script,
@@ -100,6 +150,7 @@ def run_case(case: Any, pid: str) -> Verdict:
     ninv, script, lag = case["ninv"], case["script"], case["lag"]
     nterms, nticks = len(ninv), len(script)
     close = case["close"]
+    errors = {(j, k) for j, k in case.get("errors", [])}
     meter_id = [10 * (j + 1) for j in range(nterms)]
     inv_id = [[10 * (j + 1) + i + 1 for i in range(ninv[j])] for j in range(nterms)]
     term_of: dict[int, tuple[int, int | None]] = {}
@@ -133,7 +184,7 @@ def run_case(case: Any, pid: str) -> Verdict:
                     device_ids.add(100 + cid)
         api = fakes.FakeApi(comps, conns)
         with fakes.connection(fakes.build_graph(comps, conns), api):
-            registry = ChannelRegistry(name="c19")
+            registry = _FlakyRegistry(name="c19")
             sub_chan: Any = Broadcast(name="c19-sub")
             sub_rx = sub_chan.new_receiver(limit=10000)
             gen_cls = {"pv": PVPowerFormula, "ev": EVChargerPowerFormula, "battery": BatteryPowerFormula}[family]
@@ -164,6 +215,9 @@ def run_case(case: Any, pid: str) -> Verdict:
             async def send(sub: dict[str, Any], k: int) -> None:
                 j, i = term_of[sub["cid"]]
                 row = script[k][j]
+                if i is None and (j, k) in errors:
+                    await sub["sender"].send(_TRANSIENT)
+                    return
                 if i is None:
                     value = _primary_val(j, k) if row[0] else None
                 else:
@@ -211,7 +265,7 @@ def run_case(case: Any, pid: str) -> Verdict:
     for j in range(nterms):
         for k in range(nticks):
             closed_now = close is not None and close[0] == j and k >= close[1]
-            if closed_now or not script[k][j][0]:
+            if closed_now or not script[k][j][0] or (j, k) in errors:
                 started[j] = k
                 break
         if started[j] is None:
@@ -228,6 +282,10 @@ def run_case(case: Any, pid: str) -> Verdict:
         blind |= set(range(started[j], fb_from[j]))
         if close is not None and close[0] == j:
             blind |= {close[1], close[1] + 1}
+        for (je, ke) in errors:
+            # a raising primary before the fallback stream delivers drops the round (like a closed stream)
+            if je == j and ke <= fb_from[j]:
+                blind |= {ke, ke + 1}
     by_tick: dict[int, list[Any]] = {}
     for s in outputs:
         k = (s.timestamp - world.T0).total_seconds()
@@ -248,7 +306,7 @@ def run_case(case: Any, pid: str) -> Verdict:
         expected: float | None = 0.0
         for j in range(nterms):
             row = script[k][j]
-            closed_now = close is not None and close[0] == j and k >= close[1]
+            closed_now = (close is not None and close[0] == j and k >= close[1]) or (j, k) in errors
             if row[0] and not closed_now:
                 expected = None if expected is None else expected + _primary_val(j, k)
             elif fb_from[j] is not None and fb_from[j] <= k and any(row[1:]):
@@ -280,12 +338,17 @@ def run_case(case: Any, pid: str) -> Verdict:
         v.labels.add("fallback_lag")
     if close is not None:
         v.labels.add("primary_closed")
+    if errors:
+        v.labels.add("primary_transient_error")
+    if any(fb_from[j] is not None and fb_from[j] < k < nticks - 1 and (close is None or close[0] != j or k < close[1])
+           for (j, k) in errors):
+        v.labels.add("transient_error_while_fallback_running_then_primary_continues")
     if nterms == 2:
         v.labels.add("two_terms")
     v.labels.add("family_" + case.get("family", "pv"))
     if any(s is not None for s in started):
         v.labels.add("fallback_started")
-    v.nontrivial = bool(v.labels & {"fail_recover_fail", "fallback_lag", "primary_closed"})
+    v.nontrivial = bool(v.labels & {"fail_recover_fail", "fallback_lag", "primary_closed", "primary_transient_error"})
     return v
 
 
